@@ -1,7 +1,7 @@
 // C01 harness: the real forward pipeline of the current /repo tree, in memory, on a generated sphere model.
 //   case   : c01 <id> <ndip> <nelec> <nmeg> | dipoles(6 each: position, moment)  electrodes(3 each)  squids(6 each: position, orientation)
 //            geometry/conductivities are read from  m<id>.geom / m<id>.cond  in the working directory (written by checks/c01.py at 17 digits)
-//   result : <status> <nelec> <ndip> <nmeg> <headmat size> | GainEEG (nelec x ndip, row major)  GainMEG (nmeg x ndip, row major)
+//   result : <status> <nelec> <ndip> <nmeg> <headmat size> <mask of modified Gain* operands> | GainEEG (nelec x ndip, row major)  GainMEG (nmeg x ndip, row major)
 // Call sequence = apps/assemble.cpp + apps/minverser.cpp + apps/gain.cpp (GainEEG / GainMEG of gain.h).
 #include <geometry.h>
 #include <sensors.h>
@@ -14,6 +14,21 @@
 #include "wire.h"
 
 using namespace OpenMEEG;
+
+// bitwise snapshots of the operands handed to the Gain* constructors: they are inputs and must come back unchanged
+template <typename T> static std::vector<double> snap(const T& x) { return std::vector<double>(x.data(),x.data()+x.size()); }
+template <typename T> static bool same(const T& x,const std::vector<double>& s) {
+    return x.size()==s.size() && (s.empty() || memcmp(x.data(),s.data(),s.size()*sizeof(double))==0);
+}
+struct SpEntry { size_t i,j; double v; };
+static std::vector<SpEntry> snapsp(const SparseMatrix& m) { std::vector<SpEntry> r; for (auto it=m.begin();it!=m.end();++it) r.push_back({it->first.first,it->first.second,it->second}); return r; }
+static bool samesp(const SparseMatrix& m,const std::vector<SpEntry>& s) {
+    if (m.size()!=s.size()) return false;
+    size_t k=0;
+    for (auto it=m.begin();it!=m.end();++it,++k)
+        if (it->first.first!=s[k].i || it->first.second!=s[k].j || memcmp(&it->second,&s[k].v,sizeof(double))!=0) return false;
+    return true;
+}
 
 static FWire c01(Reader& r,FReader& f) {
     const ll id = r.z();
@@ -37,24 +52,74 @@ static FWire c01(Reader& r,FReader& f) {
     const size_t hmsize = HM.nlin();
     HM.invert();                                      // om_minverser
     const Matrix dsm = DipSourceMat(geo,dipoles,Integrator(3,10,0.001),"");   // om_assemble -DSM (adaptive, as the tool)
-    FWire out; out.z = Wire{ST_OK,(ll)nelec,(ll)ndip,(ll)nmeg,(ll)hmsize};
+    FWire out; out.z = Wire{ST_OK,(ll)nelec,(ll)ndip,(ll)nmeg,(ll)hmsize,0};   // last: bit mask of Gain* operands that were modified
+    ll dirty = 0;
+    const auto sHM = snap(HM); const auto sdsm = snap(dsm);
     if (nelec>0) {
         Vector ew(nelec), er(nelec); ew.set(1.0); er.set(0.0);
         const Sensors electrodes(enames,epos,Matrix(),ew,er);
         const SparseMatrix h2em = Head2EEGMat(geo,electrodes);                 // om_assemble -H2EM
+        const auto sh2em = snapsp(h2em);
         const GainEEG G(HM,dsm,h2em);                                         // om_gain -EEG
         if (G.nlin()!=nelec || G.ncol()!=ndip) throw std::runtime_error("GainEEG shape");
         for (size_t i=0;i<nelec;++i) for (size_t j=0;j<ndip;++j) out.f.push_back(G(i,j));
+        if (!same(HM,sHM)) dirty |= 1; if (!same(dsm,sdsm)) dirty |= 2; if (!samesp(h2em,sh2em)) dirty |= 4;
     }
     if (nmeg>0) {
         Vector mw(nmeg), mr(nmeg); mw.set(1.0); mr.set(0.0);
         const Sensors squids(mnames,mpos,mori,mw,mr);
         const Matrix h2mm  = Head2MEGMat(geo,squids);                          // om_assemble -H2MM
         const Matrix ds2mm = DipSource2MEGMat(dipoles,squids);                 // om_assemble -DS2MM
+        const auto sh2mm = snap(h2mm); const auto sds2mm = snap(ds2mm);
         const GainMEG G(HM,dsm,h2mm,ds2mm);                                   // om_gain -MEG
         if (G.nlin()!=nmeg || G.ncol()!=ndip) throw std::runtime_error("GainMEG shape");
         for (size_t i=0;i<nmeg;++i) for (size_t j=0;j<ndip;++j) out.f.push_back(G(i,j));
+        if (!same(HM,sHM)) dirty |= 1; if (!same(dsm,sdsm)) dirty |= 2; if (!same(h2mm,sh2mm)) dirty |= 8; if (!same(ds2mm,sds2mm)) dirty |= 16;
     }
+    out.z[5] = dirty;
+    return out;
+}
+
+// conductivity sweep, the way a user runs it: c01s <nmodels> <id_1> ... <id_k> <ndip> <nelec> <nmeg> | dipoles electrodes squids
+// The source / sensor operators that do not depend on the head model (DipSource2MEGMat) are assembled ONCE and the same objects
+// are handed to GainMEG for every model (same geometry, different conductivities).  Output: status k ndip nelec nmeg dirtymask |
+// for each model: GainEEG (nelec x ndip) then GainMEG (nmeg x ndip).
+static FWire c01s(Reader& r,FReader& f) {
+    const size_t k = r.n(); std::vector<ll> ids; for (size_t m=0;m<k;++m) ids.push_back(r.z());
+    const size_t ndip = r.n(), nelec = r.n(), nmeg = r.n();
+    Matrix dipoles(ndip,6);
+    for (size_t i=0;i<ndip;++i) for (unsigned c=0;c<6;++c) dipoles(i,c) = f.x();
+    Matrix epos(nelec,3);
+    for (size_t i=0;i<nelec;++i) for (unsigned c=0;c<3;++c) epos(i,c) = f.x();
+    Matrix mpos(nmeg,3), mori(nmeg,3);
+    for (size_t i=0;i<nmeg;++i) { for (unsigned c=0;c<3;++c) mpos(i,c) = f.x(); for (unsigned c=0;c<3;++c) mori(i,c) = f.x(); }
+    if (!r.done() || !f.done() || nmeg==0 || nelec==0) throw Reader::Malformed();
+    Strings enames, mnames;
+    for (size_t i=0;i<nelec;++i) enames.push_back("E"+std::to_string(i));
+    for (size_t i=0;i<nmeg;++i)  mnames.push_back("M"+std::to_string(i));
+    Vector ew(nelec), er(nelec), mw(nmeg), mr(nmeg); ew.set(1.0); er.set(0.0); mw.set(1.0); mr.set(0.0);
+    const Sensors electrodes(enames,epos,Matrix(),ew,er);
+    const Sensors squids(mnames,mpos,mori,mw,mr);
+    const Matrix ds2mm = DipSource2MEGMat(dipoles,squids);                      // once for the whole sweep
+    const auto sds2mm = snap(ds2mm);
+    FWire out; out.z = Wire{ST_OK,(ll)k,(ll)ndip,(ll)nelec,(ll)nmeg,0};
+    ll dirty = 0;
+    for (size_t m=0;m<k;++m) {
+        const std::string stem = "m"+std::to_string(ids[m]);
+        const Geometry geo(stem+".geom",stem+".cond");
+        SymMatrix HM = HeadMat(geo); HM.invert();
+        const Matrix dsm = DipSourceMat(geo,dipoles,Integrator(3,10,0.001),"");
+        const SparseMatrix h2em = Head2EEGMat(geo,electrodes);
+        const Matrix h2mm = Head2MEGMat(geo,squids);
+        const auto sHM = snap(HM); const auto sdsm = snap(dsm); const auto sh2mm = snap(h2mm); const auto sh2em = snapsp(h2em);
+        const GainEEG GE(HM,dsm,h2em);
+        const GainMEG GM(HM,dsm,h2mm,ds2mm);
+        for (size_t i=0;i<nelec;++i) for (size_t j=0;j<ndip;++j) out.f.push_back(GE(i,j));
+        for (size_t i=0;i<nmeg;++i) for (size_t j=0;j<ndip;++j) out.f.push_back(GM(i,j));
+        if (!same(HM,sHM)) dirty |= 1; if (!same(dsm,sdsm)) dirty |= 2; if (!samesp(h2em,sh2em)) dirty |= 4;
+        if (!same(h2mm,sh2mm)) dirty |= 8; if (!same(ds2mm,sds2mm)) dirty |= 16;
+    }
+    out.z[5] = dirty;
     return out;
 }
 
@@ -87,5 +152,5 @@ static FWire c01p(Reader& r,FReader& f) {
 int main(int argc,char** argv) {
     if (argc<2) return 2;
     struct rlimit rl; rl.rlim_cur=rl.rlim_max=(rlim_t)12<<30; setrlimit(RLIMIT_AS,&rl);
-    return run_cases_f(argv[1],[&](const std::string& comp,Reader& r,FReader& f)->FWire { if (comp=="c01") return c01(r,f); if (comp=="c01p") return c01p(r,f); return FWire{Wire{-2},{}}; });
+    return run_cases_f(argv[1],[&](const std::string& comp,Reader& r,FReader& f)->FWire { if (comp=="c01") return c01(r,f); if (comp=="c01p") return c01p(r,f); if (comp=="c01s") return c01s(r,f); return FWire{Wire{-2},{}}; });
 }
